@@ -38,12 +38,12 @@ Proof.
   - eapply Good_frame; eauto. intros y z Hy Hz (i & j & v & t & A & B & C & D & E).
     pose proof (Solid_path _ _ _ (conj HG HR) Hy) as Sy.
     destruct (HK y i A Sy) as [i' [Hi' (V' & F' & O' & T')]].
-    assert (Hz' : exists j', get_info s' z = Some j' /\ i_value j' = i_value j /\ (nkind z = KNormal -> i_tfc j' = i_tfc j)).
+    assert (Hz' : exists j', get_info s' z = Some j' /\ i_value j' = i_value j /\ (nkind z <> KFirewall -> i_tfc j' = i_tfc j)).
     { destruct (fw_or_nonfw _ _ _ _ _ _ HI B) as [Kz|Kz].
       - assert (Vz : sverified s z) by (apply HR; exists y; auto).
         destruct Vz as [j0 [J1 J2]]. assert (j0 = j) by congruence. subst j0.
         destruct (mr_ver _ _ _ HM z j B J2) as [j' [Hj' (_ & Q2 & _)]]. exists j'. split; [exact Hj'|].
-        split; [exact Q2|]. intro K. rewrite Kz in K. discriminate.
+        split; [exact Q2|]. intro K. contradiction.
       - assert (Sz : Solid s z) by (eapply Solid_step; eauto).
         destruct (HK z j B Sz) as [j' [Hj' (Q1 & _ & _ & Q4)]]. exists j'. auto. }
     destruct Hz' as [j' (Z1 & Z2 & Z3)].
@@ -97,4 +97,229 @@ Proof using Type. intros s n fr d H. unfold fr_observations. apply observations_
 
 Lemma FrOk_callees : forall s n fr, FrOk s n fr -> all_callees (fr_order fr) = map fst (fr_callees fr).
 Proof using Type. intros s n fr H. rewrite (fo_order _ _ _ H). apply all_callees_single. Qed.
+
+Lemma nfpath_last : forall s x y, nfpath s x y ->
+  x = y \/ exists z, nfpath s x z /\ In y (old_fwd s z) /\ nonfw y.
+Proof using Type.
+  intros s x y H. induction H as [n|n d x Hd Hn Hp IH]; [left; reflexivity|right].
+  destruct IH as [->|[z (A & B & C)]].
+  - exists n. split; [constructor|auto].
+  - exists z. split; [econstructor; eauto|auto].
+Qed.
+
+(** * [set_computed] *)
+Lemma FInv_set_computed : forall inp s n e v fr bp rc,
+  FInv p rk inp s -> is_exec_kind (nkind n) = true -> alookup p n = Some e ->
+  ev (frR fr) e v ->
+  (forall d, In d (map fst (fr_callees fr)) -> In d (expr_reads e)) ->
+  FrOk s n fr -> ~ sverified s n ->
+  ((rc = true /\ Stale s n) \/ (rc = false /\ get_info s n = None)) ->
+  (nkind n = KFirewall -> forall i, get_info s n = Some i -> i_value i <> v ->
+     (forall c, In n (old_fwd s c) -> sdirty s c n) /\
+     (forall b a, nonfw b -> reach s b n -> In b (old_fwd s a) -> sdirty s a b)) ->
+  FInv p rk inp (set_computed s n v fr bp rc) /\ Keeps s (set_computed s n v fr bp rc).
+Proof.
+  intros inp s n e v fr bp rc HI Hk He Hev Hkeys Hfr Hnv Hrc Hfw.
+  set (s' := set_computed s n v fr bp rc).
+  set (keys := map fst (fr_callees fr)) in *.
+  set (ni := sc_info s n v fr bp).
+  assert (Hget : forall m, get_info s' m = if node_eqb n m then Some ni else get_info s m)
+    by (intro m; apply set_computed_get).
+  assert (Hgetne : forall m, m <> n -> get_info s' m = get_info s m).
+  { intros m Hm. rewrite Hget. destruct (node_eqb_spec n m); [congruence|reflexivity]. }
+  assert (Hgetn : get_info s' n = Some ni) by (rewrite Hget, node_eqb_refl; reflexivity).
+  assert (Hts : s_ts s' = s_ts s) by apply set_computed_ts.
+  assert (Hd : forall a b, sdirty s' a b <-> sdirty s a b /\ ~ (rc = true /\ a = n /\ In b (old_fwd s n)))
+    by (intros; apply set_computed_dirty).
+  assert (Hcs : all_callees (fr_order fr) = keys) by (eapply FrOk_callees; eauto).
+  assert (Hfwdn : old_fwd s' n = keys) by (unfold old_fwd; rewrite Hgetn; exact Hcs).
+  assert (Hfwdne : forall m, m <> n -> old_fwd s' m = old_fwd s m).
+  { intros m Hm. unfold old_fwd. rewrite (Hgetne m Hm). reflexivity. }
+  assert (Hcal : forall x y, In x (callers_of s' y) <->
+            (In x (callers_of s y) /\ ~ (x = n /\ In y (old_fwd s n))) \/ (x = n /\ In y keys)).
+  { intros x y. unfold s'. rewrite set_computed_callers, Hcs. reflexivity. }
+  assert (Hkrk : forall d, In d keys -> (rk d < rk n)%nat) by (intros d Hd0; eapply Hrk; eauto).
+  assert (Hself : ~ In n keys) by (intro K; apply Hkrk in K; lia).
+  assert (Hnd : forall b, ~ sdirty s' n b).
+  { intros b K. apply Hd in K. destruct K as [K1 K2]. pose proof (fi_dirty_edge _ _ _ _ HI _ _ K1) as Hb.
+    destruct Hrc as [[-> _]|[_ Hn]]; [apply K2; auto|]. unfold old_fwd in Hb. rewrite Hn in Hb. destruct Hb. }
+  assert (Hdne : forall a b, a <> n -> (sdirty s' a b <-> sdirty s a b)).
+  { intros a b Hne. rewrite Hd. split; [tauto|]. intro K. split; [exact K|]. intros (_ & K1 & _). contradiction. }
+  assert (Hnocaller : get_info s n = None -> forall a, ~ In n (old_fwd s a)).
+  { intros Hn a Ha. eapply (fi_target _ _ _ _ HI); eauto. }
+  assert (Hver : forall m, m <> n -> (sverified s' m <-> sverified s m)).
+  { intros m Hm. unfold sverified. rewrite (Hgetne m Hm), Hts. reflexivity. }
+  assert (Hvern : sverified s' n).
+  { exists ni. split; [exact Hgetn|]. unfold ni, sc_info. cbn [i_verified]. rewrite Hts. reflexivity. }
+  assert (Hver1 : forall m, sverified s m -> sverified s' m).
+  { intros m Hm. destruct (node_eq_dec m n) as [->|Hne]; [exact Hvern|]. apply Hver; assumption. }
+  assert (Hkind : nkind n = KNormal \/ nkind n = KFirewall).
+  { destruct (nkind n); try discriminate; auto. }
+  (* paths from a consistent node do not pass through n *)
+  assert (Hav : forall x, x <> n -> Good s x -> forall y, nfpath s x y -> y <> n).
+  { intros x Hx HG y Hy ->. destruct (nfpath_last _ _ _ Hy) as [E|[z (A & B & C)]]; [contradiction|].
+    destruct Hrc as [[_ HS]|[_ Hn]].
+    - eapply Stale_not_Good; eauto.
+    - eapply Hnocaller; eauto. }
+  assert (Hpath : forall x, (forall y, nfpath s x y -> y <> n) -> forall y, nfpath s' x y <-> nfpath s x y).
+  { intros x Hx y. split; intro K.
+    - eapply nfpath_frame_inv; [exact K|]. intros z Hz. apply Hfwdne. apply Hx. exact Hz.
+    - eapply nfpath_frame; [exact K|]. intros z Hz. apply Hfwdne. apply Hx. exact Hz. }
+  (* consistency is kept below nodes that do not see a change of n *)
+  assert (HGk : forall x, x <> n -> Good s x ->
+            (forall y, nfpath s x y -> In n (old_fwd s y) -> exists i, get_info s n = Some i /\ i_value i = v) ->
+            Good s' x).
+  { intros x Hx HG Hval. pose proof (Hav x Hx HG) as Hax.
+    eapply Good_frame; [exact HG| |].
+    - intros y Hy. apply Hfwdne. apply Hax. exact Hy.
+    - intros y z Hy Hz (i & j & v0 & t & A & B & C & D & E).
+      assert (Hyn : y <> n) by (apply Hax; exact Hy).
+      destruct (node_eq_dec z n) as [->|Hzn].
+      + destruct (Hval y Hy Hz) as [i0 [Hi0 Hv0]]. assert (i0 = j) by congruence. subst i0.
+        exists i, ni, v0, t. split; [rewrite (Hgetne y Hyn); exact A|]. split; [exact Hgetn|].
+        split; [exact C|]. split; [unfold ni, sc_info; cbn [i_value]; congruence|].
+        intro Kn. exfalso. apply (Hax n); [|reflexivity]. eapply nfpath_snoc; eauto.
+        destruct Hkind as [K0|K0]; [unfold nonfw; rewrite K0; reflexivity|contradiction].
+      + exists i, j, v0, t. rewrite (Hgetne y Hyn), (Hgetne z Hzn). auto. }
+  (* the new edges of n *)
+  assert (Hentry : forall d, In d keys -> exists j, get_info s d = Some j /\ i_verified j = s_ts s /\
+                     alookup (i_obs ni) d = Some (i_value j, i_tfc j) /\ d <> n).
+  { intros d Hdk. destruct (fo_entry _ _ _ Hfr d Hdk) as [j (A & B & C)]. exists j.
+    split; [exact B|]. split; [exact C|]. split.
+    - unfold ni, sc_info. cbn [i_obs]. rewrite (FrOk_obs _ _ _ d Hfr), A. reflexivity.
+    - intro E. subst. contradiction. }
+  assert (Hnew : forall d, In d keys -> edgeok s' n d /\ (nonfw d -> Good s' d)).
+  { intros d Hdk. destruct (Hentry d Hdk) as [j (A & B & C & D)]. split.
+    - exists ni, j, (i_value j), (i_tfc j). split; [exact Hgetn|]. split; [rewrite (Hgetne d D); exact A|].
+      split; [exact C|]. split; [reflexivity|]. intros _ x. reflexivity.
+    - intro Hnf. assert (Vd : sverified s d) by (exists j; auto).
+      apply HGk; [exact D|apply (fi_G _ _ _ _ HI); exact Vd|].
+      intros y Hy Hny. exfalso. destruct Hkind as [Kn|Kn].
+      + apply (Hav d D (fi_G _ _ _ _ HI d Vd) n); [|reflexivity]. eapply nfpath_snoc; eauto.
+        unfold nonfw. rewrite Kn. reflexivity.
+      + apply Hnv. eapply (fi_T _ _ _ _ HI); [exact Vd|]. exists y. auto. }
+  assert (HfrS : forall d x, frR fr d x -> FSpecI p inp d x).
+  { intros d x [t Hx]. destruct (fo_entry _ _ _ Hfr d (alookup_keys _ _ _ Hx)) as [j (A & B & C)].
+    assert (E : x = i_value j) by congruence. rewrite E. eapply fi_V; eauto. }
+  split.
+  { split.
+  - (* fi_kind *)
+    intros m i Hi. rewrite Hget in Hi. destruct (node_eqb_spec n m) as [<-|Hne].
+    + inversion Hi. subst i. right. split; [exact Hk|]. exists e. split; [exact He|]. split.
+      * eapply ev_mono; [exact Hev|]. intros d x _ [t Hx]. exists t. unfold ni, sc_info. cbn [i_obs].
+        rewrite (FrOk_obs _ _ _ d Hfr), Hx. reflexivity.
+      * unfold ni, sc_info. cbn [i_fwd]. rewrite Hcs. exact Hkeys.
+    + eapply fi_kind; eauto.
+  - (* fi_obs *)
+    intros m i d Hi Hdm. rewrite Hget in Hi. destruct (node_eqb_spec n m) as [<-|Hne].
+    + inversion Hi. subst i. unfold ni, sc_info in Hdm. cbn [i_fwd] in Hdm. rewrite Hcs in Hdm.
+      destruct (Hentry d Hdm) as [j (_ & _ & C & _)]. eexists. exact C.
+    + eapply fi_obs; eauto.
+  - (* fi_obs_fwd *)
+    intros m i d o Hi Ho. rewrite Hget in Hi. destruct (node_eqb_spec n m) as [<-|Hne].
+    + inversion Hi. subst i. unfold ni, sc_info in *. cbn [i_fwd i_obs] in *. rewrite Hcs.
+      rewrite (FrOk_obs _ _ _ d Hfr) in Ho. destruct (alookup (fr_callees fr) d) as [[o'|]|] eqn:Ec; try discriminate.
+      eapply alookup_keys. exact Ec.
+    + eapply fi_obs_fwd; eauto.
+  - (* fi_target *)
+    intros m d Hdm. rewrite Hget. destruct (node_eqb n d); [discriminate|].
+    destruct (node_eq_dec m n) as [->|Hne].
+    + rewrite Hfwdn in Hdm. destruct (Hentry d Hdm) as [j (A & _)]. congruence.
+    + rewrite (Hfwdne m Hne) in Hdm. eapply fi_target; eauto.
+  - (* fi_bwd *)
+    intros m d. rewrite Hcal. destruct (node_eq_dec m n) as [->|Hne].
+    + rewrite Hfwdn. split.
+      * intros [[K1 K2]|[_ K]]; [|exact K]. exfalso. apply K2. split; [reflexivity|].
+        apply (fi_bwd _ _ _ _ HI). exact K1.
+      * intro K. right. auto.
+    + rewrite (Hfwdne m Hne), (fi_bwd _ _ _ _ HI). split.
+      * intros [[K _]|[K _]]; [exact K|contradiction].
+      * intro K. left. split; [exact K|]. intros [K1 _]. contradiction.
+  - (* fi_dirty_edge *)
+    intros a b K. destruct (node_eq_dec a n) as [->|Hne]; [exfalso; eapply Hnd; eauto|].
+    rewrite (Hfwdne a Hne). apply Hdne in K; [|exact Hne]. eapply fi_dirty_edge; eauto.
+  - (* fi_ts *)
+    intros m i Hi. rewrite Hget in Hi. rewrite Hts. destruct (node_eqb_spec n m) as [<-|Hne].
+    + inversion Hi. unfold ni, sc_info. cbn [i_verified]. lia.
+    + eapply fi_ts; eauto.
+  - (* fi_tfc *)
+    intros m i d v0 t Hi Ho. rewrite Hget in Hi. destruct (node_eqb_spec n m) as [<-|Hne].
+    + inversion Hi. subst i. unfold ni, sc_info in *. cbn [i_obs i_tfc] in *.
+      rewrite (FrOk_obs _ _ _ d Hfr) in Ho. destruct (alookup (fr_callees fr) d) as [[o'|]|] eqn:Ec; try discriminate.
+      inversion Ho. subst o'. pose proof (alookup_keys _ _ _ Ec) as Hdk.
+      destruct (fo_entry _ _ _ Hfr d Hdk) as [j (A & B & C)].
+      assert (Et : t = i_tfc j) by congruence. subst t.
+      destruct (fo_tfc _ _ _ Hfr d j Hdk B) as [T1 T2]. split; [exact T1|exact T2].
+    + eapply fi_tfc; eauto.
+  - (* fi_tfc_rk *)
+    intros m i F Hi HF. rewrite Hget in Hi. destruct (node_eqb_spec n m) as [<-|Hne].
+    + inversion Hi. subst i. unfold ni, sc_info in HF. cbn [i_tfc] in HF. apply (fo_tfc_rk _ _ _ Hfr). exact HF.
+    + eapply fi_tfc_rk; eauto.
+  - (* fi_C *)
+    intros a b Hab Hclean. destruct (node_eq_dec a n) as [->|Hne].
+    + rewrite Hfwdn in Hab. apply Hnew. exact Hab.
+    + rewrite (Hfwdne a Hne) in Hab.
+      assert (Hcl : ~ sdirty s a b) by (intro K; apply Hclean; apply Hdne; assumption).
+      destruct (fi_C _ _ _ _ HI a b Hab Hcl) as [Eab Gb].
+      destruct (node_eq_dec b n) as [->|Hbn].
+      * (* a clean edge into n: n is a firewall whose value did not change *)
+        destruct Eab as (i & j & v0 & t & A & B & C & D & E).
+        destruct Hkind as [Kn|Kn].
+        -- exfalso. destruct Hrc as [[_ HS]|[_ Hn]]; [|congruence].
+           apply Hcl. eapply Stale_callers_dirty; eauto. unfold nonfw. rewrite Kn. reflexivity.
+        -- split.
+           ++ exists i, ni, v0, t. split; [rewrite (Hgetne a Hne); exact A|]. split; [exact Hgetn|].
+              split; [exact C|]. split; [|intro K; contradiction].
+              unfold ni, sc_info. cbn [i_value]. destruct (Z.eq_dec (i_value j) v) as [Ev|Ev]; [congruence|].
+              exfalso. apply Hcl. apply (proj1 (Hfw Kn j B Ev)). exact Hab.
+           ++ intro K. exfalso. eapply nonfw_not_fw; eauto.
+      * split.
+        -- destruct Eab as (i & j & v0 & t & A & B & C & D & E).
+           exists i, j, v0, t. rewrite (Hgetne a Hne), (Hgetne b Hbn). auto.
+        -- intro Hnf. specialize (Gb Hnf). apply HGk; [exact Hbn|exact Gb|].
+           intros y Hy Hny. destruct Hkind as [Kn|Kn].
+           ++ exfalso. apply (Hav b Hbn Gb n); [|reflexivity]. eapply nfpath_snoc; eauto.
+              unfold nonfw. rewrite Kn. reflexivity.
+           ++ assert (exists j, get_info s n = Some j) as [j Hj].
+              { destruct (get_info s n) eqn:Hj0; [eauto|]. exfalso. eapply (fi_target _ _ _ _ HI); eauto. }
+              exists j. split; [exact Hj|]. destruct (Z.eq_dec (i_value j) v) as [Ev|Ev]; [exact Ev|].
+              exfalso. apply Hcl. apply (proj2 (Hfw Kn j Hj Ev) b a Hnf); [|exact Hab]. exists y. auto.
+  - (* fi_G *)
+    intros x Hx. destruct (node_eq_dec x n) as [->|Hne].
+    + apply Good_intro. intros d Hdn. rewrite Hfwdn in Hdn. apply Hnew. exact Hdn.
+    + apply Hver in Hx; [|exact Hne]. pose proof (fi_G _ _ _ _ HI x Hx) as Gx.
+      apply HGk; [exact Hne|exact Gx|]. intros y Hy Hny. exfalso. destruct Hkind as [Kn|Kn].
+      * apply (Hav x Hne Gx n); [|reflexivity]. eapply nfpath_snoc; eauto. unfold nonfw. rewrite Kn. reflexivity.
+      * apply Hnv. eapply (fi_T _ _ _ _ HI); [exact Hx|]. exists y. auto.
+  - (* fi_T *)
+    assert (Hold : forall x F, x <> n -> sverified s x -> reach s' x F -> sverified s' F).
+    { intros x F Hne Hx [y (A & B & C)]. pose proof (fi_G _ _ _ _ HI x Hx) as Gx.
+      pose proof (Hav x Hne Gx) as Hax. apply (Hpath x Hax) in A.
+      rewrite (Hfwdne y (Hax y A)) in B. apply Hver1. eapply (fi_T _ _ _ _ HI); [exact Hx|]. exists y. auto. }
+    intros x F Hx HR. destruct (node_eq_dec x n) as [->|Hne].
+    + destruct HR as [y (A & B & C)]. inversion A; subst.
+      * rewrite Hfwdn in B. destruct (Hentry F B) as [j (J1 & J2 & _ & J4)]. apply Hver1. exists j. auto.
+      * rewrite Hfwdn in H. destruct (Hentry d H) as [j (J1 & J2 & _ & J4)].
+        apply (Hold d F J4); [exists j; auto|]. exists y. auto.
+    + apply (Hold x F Hne); [apply Hver; assumption|exact HR].
+  - (* fi_V *)
+    intros m i Hi Hv. rewrite Hget in Hi. destruct (node_eqb_spec n m) as [<-|Hne].
+    + inversion Hi. subst i. unfold ni, sc_info. cbn [i_value]. eapply FSpecI_exec; eauto.
+      eapply ev_fsev; [exact Hev|]. intros d x _ Hx. apply HfrS. exact Hx.
+    + eapply fi_V; eauto. congruence.
+  - (* fi_PV *)
+    intros x Hx. unfold s' in Hx. rewrite set_computed_visited in Hx.
+    destruct (node_eq_dec x n) as [->|Hne]; [left; exact Hvern|].
+    destruct (fi_PV _ _ _ _ HI x Hx) as [K|[Kin K]]; [left; apply Hver1; exact K|].
+    destruct (in_dec node_eq_dec x keys) as [Hk0|Hk0].
+    + left. destruct (Hentry x Hk0) as [j (J1 & J2 & _)]. apply Hver1. exists j. auto.
+    + right. split; [exact Kin|]. intros c Hc. apply Hcal in Hc. destruct Hc as [[Hc Hc2]|[_ Hc]]; [|contradiction].
+      destruct (K c Hc) as [K1 K2]. split.
+      * apply Hd. split; [exact K1|]. intros (_ & -> & K3). apply Hc2. auto.
+      * intro Hn. unfold s'. rewrite set_computed_visited. auto. }
+  (* Keeps *)
+  intros d i Hi [HG _]. destruct (node_eq_dec d n) as [->|Hne].
+  - exfalso. destruct Hrc as [[_ HS]|[_ Hn]]; [|congruence]. eapply Stale_not_Good; eauto. constructor.
+  - exists i. split; [rewrite (Hgetne d Hne); exact Hi|repeat split].
+Qed.
 End Exec.
